@@ -467,3 +467,48 @@ def inline_self_calls(prog, cls, expr, depth=3):
             return n
 
     return X().visit(_copy.deepcopy(expr))
+
+
+def flat_facts(guards):
+    """atomic (test, polarity) facts implied by a list of path guards: `not` flips, a true conjunction / false disjunction
+    splits; comparison operators are left as they are (use compare_fact to read them)"""
+    out = []
+
+    def flat(t, pol):
+        if isinstance(t, ast.UnaryOp) and isinstance(t.op, ast.Not):
+            return flat(t.operand, not pol)
+        if isinstance(t, ast.BoolOp) and ((isinstance(t.op, ast.And) and pol) or (isinstance(t.op, ast.Or) and not pol)):
+            for v in t.values:
+                flat(v, pol)
+            return
+        out.append((t, pol))
+
+    for t, pol in guards:
+        flat(t, pol)
+    return out
+
+
+def equality_fact(t, pol):
+    """(left, right, equal?) when the fact states that two expressions are equal / different"""
+    if isinstance(t, ast.Compare) and len(t.ops) == 1 and isinstance(t.ops[0], (ast.Eq, ast.NotEq)):
+        eq = isinstance(t.ops[0], ast.Eq)
+        return t.left, t.comparators[0], (eq if pol else not eq)
+    return None
+
+
+def self_mutations(effects, sn="self"):
+    """effect nodes (from path_returns) that change the object: stores into self.<...> and mutating calls on self.<attr>"""
+    out = []
+    for e in effects:
+        if isinstance(e, (ast.Assign, ast.AugAssign)):
+            for t in (e.targets if isinstance(e, ast.Assign) else [e.target]):
+                base = t
+                while isinstance(base, (ast.Attribute, ast.Subscript)):
+                    base = base.value
+                if isinstance(base, ast.Name) and base.id == sn:
+                    out.append(e)
+        for x in ast.walk(e):
+            if isinstance(x, ast.Call) and isinstance(x.func, ast.Attribute) and x.func.attr in ("append", "insert", "extend", "remove", "pop", "clear", "sort", "reverse") \
+                    and is_self_attr(x.func.value, self_name=sn):
+                out.append(e)
+    return out
